@@ -37,9 +37,33 @@ def n_inst(tr):
 # oracles: each returns a list of (message, detail) — empty when the property holds on the trace
 # ---------------------------------------------------------------------------------------------
 
+def declared_ratios(spec, tr):
+    """gear ratio of every chain element to its driver as the property defines it, from the *last*
+    relation declared with that element as slave: slave teeth / master teeth, wheel teeth / worm
+    starts or its inverse, exactly 1 for a fixed joint"""
+    names = [e.get('name', f'e{i + 1}') for i, e in enumerate(spec['elems'])]
+
+    def teeth(idx):
+        e = spec['elems'][idx - 1]
+        return e.get('z', e.get('starts'))
+    out = []
+    for nm in tr['names'][1:]:
+        idx = names.index(nm) + 1
+        r = None
+        for rel in spec['rels']:
+            if rel[2] == idx:
+                r = 1.0 if rel[0] == 'joint' else teeth(rel[2]) / teeth(rel[1])
+        out.append(r)
+    return out
+
+
 def oracle_C01(spec, tr):
     out = []
     n = n_inst(tr)
+    for i, (want, got) in enumerate(zip(declared_ratios(spec, tr), tr['ratios'])):
+        if want is not None and not (got is not None and abs(got - want) <= 1e-12 * abs(want)):
+            out.append((f'gear ratio of element {i + 1} to its driver is {got}, the declared relation gives {want}', {}))
+            return out
     for var in ('angular position', 'angular speed', 'angular acceleration'):
         sc = vscale(tr, var)
         for j in range(n):
@@ -365,7 +389,7 @@ ORACLES = {'C01': oracle_C01, 'C02': oracle_C02, 'C03': oracle_C03, 'C11': oracl
 def dynamics_spec(rng, ctx, *, sl_bias=0.35, schedule=True):
     """a random model with a short schedule (whole-history correspondence: <= 16 steps in total)"""
     ru = rng.random() < 0.7
-    spec = gen.gen_spec(rng, random_units=ru, sl_bias=sl_bias)
+    spec = gen.gen_spec(rng, random_units=ru, sl_bias=sl_bias, reuse=0.25)
     dt = 2.0 ** -rng.randint(3, 6)
     total = rng.randint(5, 16)
     if spec['load']['coef'][4] != 0:
